@@ -132,7 +132,11 @@ impl Asm {
                 Label::new(if v.is_code { LabelType::CODE } else { LabelType::DATA }, v.source_position, v.map),
             );
         }
-        InterpreterContext { fn_map: self.fns.clone(), label_map, call_stack: Vec::new() }
+        // (built through Default so that a field added to the context does not break the harness)
+        let mut c = InterpreterContext::default();
+        c.fn_map = self.fns.clone();
+        c.label_map = label_map;
+        c
     }
     /// the driver-level acceptance checks (undefined labels, start)
     pub fn driver_accepts(&self) -> Result<usize, String> {
